@@ -88,7 +88,9 @@ func (s *Sniffer) SniffQuic() (d string, err error) {
 	s.quicNextRead = s.buf.Len()
 	sni, err := extractSniFromTls(quicutils.NewLinearLocator(s.quicCryptos))
 	if err != nil {
-		s.needMore = true
+		// "not found" after a complete walk over the extensions of a complete
+		// ClientHello is final; more datagrams cannot change it.
+		s.needMore = !errors.Is(err, ErrNotFound)
 		return "", ErrNotFound
 	}
 	return sni, nil
